@@ -17,6 +17,11 @@
 (*   lines; only for groups overlapping [min selected row, max selected    *)
 (*   row]; each request confined to that group's bytes and to the file; no *)
 (*   other file of the product is touched; every handle opened is closed.  *)
+(* Transient faults: a "fault" event (a request that failed with an I/O    *)
+(*   error, possibly after moving the position) is not a read; the call it *)
+(*   hits may RAISE or must be RIGHT -- never a silently wrong result; and *)
+(*   the groups already delivered are not requested again (a retry is of   *)
+(*   the failed request, not of the whole selection).                      *)
 (* Result clauses: an open reports ok only if nothing is missing from the  *)
 (*   file (C18) with the header-declared shape (C01); a load returns the   *)
 (*   selected cells (C01/C02, compared by the harness, logged as "equal"). *)
@@ -34,7 +39,7 @@ SeqMax(s) == IF Len(s) = 1 THEN s[1] ELSE Max(Head(s), SeqMax(Tail(s)))
 SpanGroups(g, rows) == IF rows = << >> THEN {} ELSE Grp(g, SeqMin(rows)) .. Grp(g, SeqMax(rows))
 
 EnvInit == [phase |-> "idle", nMeta |-> 0, lastEnd |-> 0, first |-> TRUE, readGroups |-> {}, span |-> {},
-            handles |-> {}, bad |-> ""]
+            handles |-> {}, faulted |-> FALSE, bad |-> ""]
 
 Fail(env, clause) == IF env.bad = "" THEN [env EXCEPT !.bad = clause] ELSE env
 
@@ -63,7 +68,8 @@ ObserveLoadRead(env, ev, g) ==
 
 Observe(env, ev, g) ==
     CASE ev.e = "begin_open" ->
-            [env EXCEPT !.phase = "opening", !.nMeta = 0, !.lastEnd = 0, !.first = TRUE]
+            [env EXCEPT !.phase = "opening", !.nMeta = 0, !.lastEnd = 0, !.first = TRUE, !.faulted = FALSE]
+      [] ev.e = "fault" -> [env EXCEPT !.faulted = TRUE]
       [] ev.e = "fopen" ->
             IF env.phase = "loading" /\ ev.f # g.img THEN Fail(env, "foreign-file-on-load")
             ELSE [env EXCEPT !.handles = env.handles \cup {ev.h}]
@@ -77,13 +83,13 @@ Observe(env, ev, g) ==
       [] ev.e = "opened" ->
             LET e1 == IF ev.outcome = "ok" /\ g.flen < Full(g) THEN Fail(env, "failstop-truncated-accepted") ELSE env
                 e2 == IF ev.outcome = "ok" /\ ev.shape # << g.n, g.p >> THEN Fail(e1, "declared-shape") ELSE e1
-                e3 == IF ev.outcome # "ok" /\ g.flen = Full(g) /\ ev.expect = "ok" THEN Fail(e2, "wellformed-rejected") ELSE e2
+                e3 == IF ev.outcome # "ok" /\ g.flen = Full(g) /\ ev.expect = "ok" /\ ~env.faulted THEN Fail(e2, "wellformed-rejected") ELSE e2
                 e4 == IF e3.handles # {} THEN Fail(e3, "handle-leak-on-open") ELSE e3
             IN  [e4 EXCEPT !.phase = "opened"]
       [] ev.e = "begin_load" ->
-            [env EXCEPT !.phase = "loading", !.readGroups = {}, !.span = SpanGroups(g, ev.rows)]
+            [env EXCEPT !.phase = "loading", !.readGroups = {}, !.span = SpanGroups(g, ev.rows), !.faulted = FALSE]
       [] ev.e = "loaded" ->
-            LET e1 == IF ev.outcome # "equal" THEN Fail(env, "result-" \o ev.outcome) ELSE env
+            LET e1 == IF ev.outcome = "equal" \/ (ev.outcome = "error" /\ env.faulted) THEN env ELSE Fail(env, "result-" \o ev.outcome)
                 e2 == IF e1.handles # {} THEN Fail(e1, "handle-leak-on-load") ELSE e1
             IN  [e2 EXCEPT !.phase = "opened"]
       [] OTHER -> env
